@@ -895,18 +895,28 @@ impl StoryState {
         self.output_stream_dirty();
     }
 
-    pub fn pop_evaluation_stack(&mut self) -> Rc<dyn RTObject> {
-        self.evaluation_stack.pop().unwrap()
+    // The operands of an instruction are on the stack when the story document is sound; a hand-edited
+    // story or save can make it run dry, which is a story error, not a panic
+    pub fn pop_evaluation_stack(&mut self) -> Result<Rc<dyn RTObject>, StoryError> {
+        self.evaluation_stack.pop().ok_or_else(|| {
+            StoryError::InvalidStoryState("The evaluation stack is empty".to_owned())
+        })
     }
 
     pub fn pop_evaluation_stack_multiple(
         &mut self,
         number_of_objects: usize,
-    ) -> Vec<Rc<dyn RTObject>> {
-        let start = self.evaluation_stack.len() - number_of_objects;
+    ) -> Result<Vec<Rc<dyn RTObject>>, StoryError> {
+        let start = self
+            .evaluation_stack
+            .len()
+            .checked_sub(number_of_objects)
+            .ok_or_else(|| {
+                StoryError::InvalidStoryState("The evaluation stack is too low".to_owned())
+            })?;
         let obj: Vec<Rc<dyn RTObject>> = self.evaluation_stack.drain(start..).collect();
 
-        obj
+        Ok(obj)
     }
 
     pub fn set_diverted_pointer(&mut self, p: Pointer) {
@@ -1095,7 +1105,7 @@ impl StoryState {
         // for that)
         let mut returned_obj = None;
         while self.evaluation_stack.len() > original_evaluation_stack_height {
-            let popped_obj = self.pop_evaluation_stack();
+            let popped_obj = self.pop_evaluation_stack()?;
             if returned_obj.is_none() {
                 returned_obj = Some(popped_obj);
             }
